@@ -55,16 +55,20 @@ def pick_problem(rng, Lmin=1, Lmax=7, maxdim=512):
     return label, L, H, psi, prof
 
 
-def tdvp_case(ctx, idx, rng):
+def tdvp_case(ctx, idx, rng, long=False):
     import pytenet.evolution as pe
     two = bool(idx % 2)
-    prob = pick_problem(rng, Lmin=2 if two else 1)
+    prob = pick_problem(rng, Lmin=2 if two else 1) if not long else pick_problem(rng, Lmin=3, Lmax=5, maxdim=81)
     if prob is None:
         ctx.case(('no-nonzero-state',), nontrivial=False)
         return
     label, L, H, psi, prof = prob
     numiter = int(rng.choice([1, 2, 3, 5, 25, 25]))
     nsteps = int(rng.integers(1, 5))
+    if long:
+        # many time steps in ONE call (round numbers 100 / 128 / 200 / 256 and their neighbours included)
+        nsteps = int(rng.choice([int(rng.integers(97, 141)), 101, 128, 129, 200, 201, 256, 257, 300]))
+        numiter = int(rng.choice([2, 3, 5, 25]))
     dt = 1j * float(rng.choice([-1, 1])) * float(rng.uniform(0.01, 0.5))
     scale = float(rng.choice([1.0, 0.3, 7.0])) * np.exp(1j * float(rng.uniform(0, 2 * np.pi)) if rng.random() < 0.3 else 0)
     psi.A[0] = psi.A[0] * scale
@@ -76,7 +80,7 @@ def tdvp_case(ctx, idx, rng):
     D_in = list(psi.bond_dims)
     ends = (psi.qD[0].copy(), psi.qD[-1].copy())
     integ = 'twosite' if two else 'singlesite'
-    ctx.case((integ, label, f'L{L}', prof, f'numiter{numiter}', f'steps{min(nsteps, 2)}'),
+    ctx.case((integ, label, f'L{L}', prof, f'numiter{numiter}', f'steps{min(nsteps, 2)}' if not long else f'steps>={nsteps // 100 * 100}'),
              sample={'integrator': integ, 'model': label, 'L': L, 'qD': psi.qD, 'dt': dt, 'numiter': numiter, 'steps': nsteps},
              info={'integrator': integ, 'model': label, 'L': L, 'qd': H.qd, 'qD': psi.qD, 'A': psi.A, 'H_A': H.A, 'H_qD': H.qD, 'dt': dt, 'numiter': numiter, 'steps': nsteps})
     detail = ctx.cur_info
@@ -140,6 +144,8 @@ def tdvp_case(ctx, idx, rng):
     # normalised input is decided at the first trace point above; comparing the evolved states of two differently scaled inputs was tried
     # and dropped: rounding differences are amplified by the discrete dynamics -- 1e-15 -> 1e-4 even for |dt| ||H|| <= 0.3 near
     # rank-deficient points -- so that comparison raised false alarms.)
+    if long:
+        return
     c = float(rng.choice([0.5, 3.0]))
     psi2 = psi_copy
     psi2.A[int(rng.integers(0, L))] *= c
@@ -151,6 +157,11 @@ def tdvp_case(ctx, idx, rng):
         v3 = refs.dense_state(psi.A)
         ctx.close('repeated-call.return-one', abs(float(r3) - 1), TOL, 'second call on the evolved (normalised) state must return 1', detail)
         ctx.close('repeated-call.energy', abs(float(np.real(np.vdot(v3, mH @ v3))) - E0), TOL * nH, 'energy drift on a repeated call', detail)
+
+
+def long_run_case(ctx, idx, rng):
+    """97..300 time steps in a single call (anything that happens only every N-th step), every sub-step traced as in the short runs."""
+    tdvp_case(ctx, idx, rng, long=True)
 
 
 def large_case(ctx, idx, rng):
@@ -253,6 +264,7 @@ SPEC = {
                  'hamiltonian-untouched', 'singlesite.bond-dims-never-grow', 'trace.evolution-starts-from-normalised-input', 'trace.points-observed'],
     'workloads': [
         Workload('tdvp', tdvp_case, quick=520, thorough=48000),
+        Workload('long-runs', long_run_case, quick=32, thorough=2400),
         Workload('large', large_case, quick=60, thorough=4000),
         Workload('quench', quench_case, quick=200, thorough=16000),
     ],
